@@ -25,6 +25,8 @@ pub enum RegKind {
     /// the byte-identical script of the instance currently active under that name and
     /// context (an idempotent re-deploy); a fresh valid script if none is active
     SameAsActive,
+    /// a `.register` frame without any content
+    NoContent,
 }
 
 #[derive(Clone, Debug, Serialize, Deserialize)]
@@ -45,7 +47,7 @@ pub struct C16Case {
 
 pub fn strategy() -> BoxedStrategy<C16Case> {
     let ev = prop_oneof![
-        6 => (0u8..2, 0u8..2, prop_oneof![6 => Just(RegKind::Valid), 2 => Just(RegKind::SameAsActive), 1 => Just(RegKind::BadArity), 1 => Just(RegKind::ParseError), 1 => Just(RegKind::ConfigError)], prop_oneof![3 => Just(false), 1 => Just(true)])
+        6 => (0u8..2, 0u8..2, prop_oneof![6 => Just(RegKind::Valid), 2 => Just(RegKind::SameAsActive), 1 => Just(RegKind::BadArity), 1 => Just(RegKind::ParseError), 1 => Just(RegKind::ConfigError), 1 => Just(RegKind::NoContent)], prop_oneof![3 => Just(false), 1 => Just(true)])
             .prop_map(|(name, ctx, kind, resume_head)| Ev::Reg { name, ctx, kind, resume_head }),
         2 => (0u8..2, 0u8..2).prop_map(|(name, ctx)| Ev::Unreg { name, ctx }),
         2 => (0u8..2, 0u8..2).prop_map(|(name, ctx)| Ev::Boom { name, ctx }),
@@ -83,6 +85,7 @@ fn script(name: &str, version: usize, kind: &RegKind, resume_head: bool) -> Stri
         RegKind::BadArity => "{run: {|| 42}}".to_string(),
         RegKind::ParseError => "{run: {|frame| let x = }}".to_string(),
         RegKind::ConfigError => "error make {msg: \"config\"}\n{run: {|frame| 1}}".to_string(),
+        RegKind::NoContent => String::new(),
     }
 }
 
@@ -171,7 +174,13 @@ fn run_in(case: &C16Case, nu: &mut Nu) -> Result<CaseInfo, Fail> {
                     }
                 }
                 let resume_head = &resume_head;
-                let reg = nu.append(&format!("{n}.register"), ctxs[*ctx as usize], Some(script(n, version, kind, *resume_head).as_bytes()), None)?;
+                let text = script(n, version, kind, *resume_head);
+                let reg = nu.append(
+                    &format!("{n}.register"),
+                    ctxs[*ctx as usize],
+                    if *kind == RegKind::NoContent { None } else { Some(text.as_bytes()) },
+                    None,
+                )?;
                 let prev = active.remove(&(*ctx, *name));
                 if prev.is_some() {
                     // right behind the replacing frame, before the old instance has reached it: the
@@ -379,7 +388,7 @@ pub fn run(tier: Tier, seed: u64, replay: Option<&std::path::Path>) -> i32 {
         25,
         strategy,
         run_case,
-        "event sequences (1..13) over two handler names and two contexts: register (valid, the byte-identical script of the active instance, closure without parameter, parse error, configuration script that raises; resume tail or head), re-register, unregister, a trigger that makes the closure fail, probes; after every valid registration a probe is appended the moment `<name>.registered` becomes visible; the handler's subscribe and announce steps are optionally delayed by 5 or 20 ms through the verif sync points. Oracle: every probe appended after `.registered` is processed (8 s bound); per instance at most one `.registered`, exactly one `.unregistered` with its id (carrying an error iff it stopped on one) for every stop reason and none while active, nothing stamped with it after its `.unregistered`; every probe is answered by exactly the active instances of its context, with the content of their own script version. Non-trivial = a replacement or an error stop followed by a probe, or a delayed subscribe step. Distinct by case hash.",
+        "event sequences (1..13) over two handler names and two contexts: register (valid, the byte-identical script of the active instance, closure without parameter, parse error, configuration script that raises, no content at all; resume tail or head), re-register, unregister, a trigger that makes the closure fail, probes; after every valid registration a probe is appended the moment `<name>.registered` becomes visible; the handler's subscribe and announce steps are optionally delayed by 5 or 20 ms through the verif sync points. Oracle: every probe appended after `.registered` is processed (8 s bound); per instance at most one `.registered`, exactly one `.unregistered` with its id (carrying an error iff it stopped on one) for every stop reason and none while active, nothing stamped with it after its `.unregistered`; every probe is answered by exactly the active instances of its context, with the content of their own script version. Non-trivial = a replacement or an error stop followed by a probe, or a delayed subscribe step. Distinct by case hash.",
         vec!["absence of answers from stopped instances is observed until 25 ms after the last probe was answered".to_string()],
         2,
     )
